@@ -83,6 +83,7 @@ type wside struct {
 	excl   [][2][]uint64 // Decode rejects records of group [0] together with records of group [1]
 	optAt  int           // >= 0: the fields from this index on form an optional tail
 	optFld string        // Encode: the field whose nil-ness decides whether the tail is written
+	all    bool          // Merge without custom-record split: ExtraData holds ALL unknown records
 }
 
 type unsup struct{ msg string }
@@ -232,6 +233,36 @@ func (g *wgen) evalConst(e ast.Expr, iota int, depth int) (uint64, bool) {
 // ---------------------------------------------------------------- types
 
 func (g *wgen) structField(structName, field string) (ast.Expr, bool) {
+	if i := strings.Index(field, "."); i >= 0 {
+		t, ok := g.structField1(structName, field[:i])
+		if !ok {
+			return nil, false
+		}
+		id, ok := t.(*ast.Ident)
+		if !ok {
+			return nil, false
+		}
+		return g.structField(id.Name, field[i+1:])
+	}
+	if t, ok := g.structField1(structName, field); ok {
+		return t, true
+	}
+	// promoted through an embedded struct (Go rejects ambiguous selectors)
+	if ts, ok := g.types[structName]; ok {
+		if st, ok := ts.Type.(*ast.StructType); ok {
+			for _, f := range st.Fields.List {
+				if id, ok := f.Type.(*ast.Ident); ok && len(f.Names) == 0 {
+					if t, ok := g.structField(id.Name, field); ok {
+						return t, true
+					}
+				}
+			}
+		}
+	}
+	return nil, false
+}
+
+func (g *wgen) structField1(structName, field string) (ast.Expr, bool) {
 	ts, ok := g.types[structName]
 	if !ok {
 		return nil, false
@@ -342,6 +373,7 @@ var decoderKinds = map[string]string{
 	"leaseExpiryDecoder":             "RKFixed 4",
 	"tlv.DVarBytes":                  "RKVar",
 	"decodeLocalNoncesData":          "RKNonceMap",
+	"decodeMilliSatoshis":            "RKBigSize",
 }
 
 var decoderSizes = map[string]uint64{
@@ -488,6 +520,9 @@ func (g *wgen) rkOfValue(n ast.Node, v ast.Expr) (string, error) {
 	case "*btcec.PublicKey":
 		return "RKPoint", nil
 	}
+	if ix, ok := v.(*ast.IndexExpr); ok && g.src(ix.X) == "tlv.BigSizeT" {
+		return "RKBigSize", nil
+	}
 	if id, ok := v.(*ast.Ident); ok {
 		_, _, rk, err := g.recordOfNamed(n, id.Name)
 		return rk, err
@@ -540,11 +575,19 @@ func recvField(e ast.Expr, recv string) (string, bool) {
 	if !ok {
 		return "", false
 	}
-	id, ok := s.X.(*ast.Ident)
-	if !ok || id.Name != recv {
-		return "", false
+	if id, ok := s.X.(*ast.Ident); ok {
+		if id.Name != recv {
+			return "", false
+		}
+		return s.Sel.Name, true
 	}
-	return s.Sel.Name, true
+	// recv.Embedded.F -> "Embedded.F"
+	if _, ok := s.X.(*ast.SelectorExpr); ok {
+		if p, ok := recvField(s.X, recv); ok {
+			return p + "." + s.Sel.Name, true
+		}
+	}
+	return "", false
 }
 
 func findCall(n ast.Node, name string) *ast.CallExpr {
@@ -702,6 +745,8 @@ type decState struct {
 	extRead bool
 	optBuf  string // local array the first optional-tail field was read into
 	optLen  uint64
+	lenVar  string // local uint16 holding the length of the byte slice read next
+	lenFld  string // recv field allocated with make([]byte, lenVar)
 }
 
 // `buf[:]` / `buf[:N]` of a local `var buf [N]byte` -> (N, "buf")
@@ -786,6 +831,13 @@ func (g *wgen) bindHelper(n ast.Node, call *ast.CallExpr, hf *ast.FuncDecl, recv
 	}
 	for i, a := range call.Args {
 		pt := params[i].Type
+		if id, ok := a.(*ast.Ident); ok && id.Name == recv {
+			if st, ok := pt.(*ast.StarExpr); ok && g.src(st.X) == sname {
+				env.structOf[names[i]] = sname
+				continue
+			}
+			return nil, g.bad(n, "helper %s: receiver passed as %s", hf.Name.Name, g.src(pt))
+		}
 		if id, ok := a.(*ast.Ident); ok {
 			if extVar == "" || id.Name != extVar || g.src(pt) != "ExtraOpaqueData" {
 				return nil, g.bad(n, "helper %s: unsupported argument %s", hf.Name.Name, g.src(a))
@@ -986,12 +1038,25 @@ func (d *decState) readArgs(n ast.Node, args []ast.Expr, into *[]wfield) error {
 			*into = append(*into, wfield{f, fmt.Sprintf("FBytes %d", n)})
 			continue
 		}
+		if f, ok := recvField(a, d.recv); ok && d.lenFld == f && f != "" {
+			// ReadElement(r, recv.F) with recv.F = make([]byte, n), n the u16 just read
+			if ft, ok := g.structField(d.sname, f); !ok || g.src(ft) != "[]byte" {
+				return g.bad(a, "length-prefixed field %s is not a []byte", f)
+			}
+			*into = append(*into, wfield{f, "FVar16"})
+			d.lenFld, d.lenVar = "", ""
+			continue
+		}
 		u, ok := a.(*ast.UnaryExpr)
 		if !ok || u.Op != token.AND {
 			return g.bad(a, "unsupported ReadElements argument %s", g.src(a))
 		}
 		if id, ok := u.X.(*ast.Ident); ok {
 			t, ok := d.locals[id.Name]
+			if ok && g.src(t) == "uint16" && d.lenVar == "" && len(args) == 1 {
+				d.lenVar = id.Name // u16 length of a byte slice read next
+				continue
+			}
 			if !ok || g.src(t) != "ExtraOpaqueData" {
 				return g.bad(a, "ReadElements into local %s which is not an ExtraOpaqueData", id.Name)
 			}
@@ -1097,6 +1162,12 @@ func (d *decState) ignorable(st ast.Stmt) bool {
 				if _, ok := s.Rhs[0].(*ast.Ident); ok {
 					return true
 				}
+				// copy of an already decoded field into its embedded twin
+				if _, ok := s.Rhs[0].(*ast.SelectorExpr); ok {
+					if _, ok := recvField(s.Rhs[0], d.recv); ok {
+						return true
+					}
+				}
 			}
 		}
 		if len(s.Lhs) == 2 && len(s.Rhs) == 1 {
@@ -1154,7 +1225,22 @@ func (g *wgen) analyseDecode(sname string, fd *ast.FuncDecl) (*wside, error) {
 			skip--
 			continue
 		}
-		if isErrCheck(st) || d.ignorable(st) {
+		if d.lenVar != "" && d.lenFld == "" {
+			// must be followed by recv.F = make([]byte, n)
+			as, ok := st.(*ast.AssignStmt)
+			if isErrCheck(st) {
+				continue
+			}
+			if ok && len(as.Lhs) == 1 && len(as.Rhs) == 1 &&
+				g.src(as.Rhs[0]) == "make([]byte, "+d.lenVar+")" {
+				if f, ok := recvField(as.Lhs[0], d.recv); ok {
+					d.lenFld = f
+					continue
+				}
+			}
+			return nil, g.bad(st, "u16 length %s is not used to allocate a []byte field right away", d.lenVar)
+		}
+		if _, isRet := st.(*ast.ReturnStmt); isErrCheck(st) || (d.ignorable(st) && (!isRet || i == len(body)-1)) {
 			continue
 		}
 		// declarations
@@ -1242,13 +1328,16 @@ func (g *wgen) analyseDecode(sname string, fd *ast.FuncDecl) (*wside, error) {
 				return nil, g.bad(st, "ValidateTLV on something else than the extension field")
 			}
 			d.side.term = "FTlvRest"
-		case "ExtractRecords", "ParseAndExtractCustomRecords":
+		case "ExtractRecords", "ParseAndExtractCustomRecords", "ParseAndExtractExtraData":
 			args := call.Args
 			mode := "Repack"
-			if callName(call) == "ParseAndExtractCustomRecords" {
+			if callName(call) == "ParseAndExtractExtraData" {
+				d.side.all = true
+			}
+			if callName(call) != "ExtractRecords" {
 				mode = "Merge"
 				if len(args) == 0 || g.src(args[0]) != d.extVar || d.extVar == "" {
-					return nil, g.bad(st, "ParseAndExtractCustomRecords not applied to the extension data")
+					return nil, g.bad(st, "%s not applied to the extension data", callName(call))
 				}
 				args = args[1:]
 			} else {
@@ -1351,6 +1440,9 @@ func (g *wgen) analyseDecode(sname string, fd *ast.FuncDecl) (*wside, error) {
 	if d.optBuf != "" {
 		return nil, g.bad(fd, "optional-tail buffer %s is never copied into a field", d.optBuf)
 	}
+	if d.lenVar != "" {
+		return nil, g.bad(fd, "u16 length %s read but no byte slice of that length", d.lenVar)
+	}
 	if d.extVar != "" && !d.side.tlv {
 		// local ExtraOpaqueData copied into the struct without parsing
 		d.side.term = "FRest"
@@ -1396,6 +1488,10 @@ type encState struct {
 	prodVar  string // name of the []tlv.RecordProducer variable
 	mergeVar string // result variable of MergeAndEncode
 	done     bool
+	packVar  string // var tlvData ExtraOpaqueData; tlvData.PackRecords(producers...)
+	lenVar   string // n := len(recv.F)
+	lenFld   string
+	lenOut   bool // WriteUint16(w, uint16(n)) seen: WriteBytes(w, recv.F) must follow
 }
 
 func unconv(e ast.Expr) ast.Expr {
@@ -1432,6 +1528,22 @@ func (e *encState) write(n ast.Node, call *ast.CallExpr, into *[]wfield) error {
 		return g.bad(n, "%s with %d arguments", fn, len(call.Args))
 	}
 	arg := call.Args[1]
+	if fn == "WriteUint16" && e.lenVar != "" && !e.lenOut {
+		if id, ok := unconv(arg).(*ast.Ident); ok && id.Name == e.lenVar {
+			e.lenOut = true
+			return nil
+		}
+	}
+	if e.lenOut {
+		f, ok := recvField(arg, e.recv)
+		ft, _ := g.structField(e.sname, f)
+		if fn != "WriteBytes" || !ok || f != e.lenFld || ft == nil || g.src(ft) != "[]byte" {
+			return g.bad(n, "u16 length of %s written, but %s follows", e.lenFld, g.src(call))
+		}
+		*into = append(*into, wfield{f, "FVar16"})
+		e.lenOut, e.lenVar, e.lenFld = false, "", ""
+		return nil
+	}
 	switch fn {
 	case "WriteBytes":
 		if sl, ok := arg.(*ast.SliceExpr); ok && sl.Low == nil && sl.High == nil {
@@ -1607,6 +1719,13 @@ func (g *wgen) analyseEncode(sname string, fd *ast.FuncDecl) (*wside, error) {
 		// var x []tlv.RecordProducer
 		if as, ok := st.(*ast.AssignStmt); ok && as.Tok == token.DEFINE && len(as.Lhs) == 1 {
 			id, _ := as.Lhs[0].(*ast.Ident)
+			// n := len(recv.F)
+			if c, ok := as.Rhs[0].(*ast.CallExpr); ok && id != nil && callName(c) == "len" && len(c.Args) == 1 {
+				if f, ok := recvField(c.Args[0], e.recv); ok && e.lenVar == "" {
+					e.lenVar, e.lenFld = id.Name, f
+					continue
+				}
+			}
 			// producers := helper(&c.A, &c.B, c.F)
 			if c, ok := as.Rhs[0].(*ast.CallExpr); ok && id != nil {
 				if fid, ok := c.Fun.(*ast.Ident); ok {
@@ -1649,6 +1768,14 @@ func (g *wgen) analyseEncode(sname string, fd *ast.FuncDecl) (*wside, error) {
 			}
 			if gd.Tok == token.VAR && g.src(st) == "var buf [8]byte" {
 				continue // scratch buffer of tlv.WriteVarInt
+			}
+			if gd.Tok == token.VAR && len(gd.Specs) == 1 {
+				vs := gd.Specs[0].(*ast.ValueSpec)
+				if len(vs.Names) == 1 && vs.Type != nil && g.src(vs.Type) == "ExtraOpaqueData" &&
+					len(vs.Values) == 0 && e.packVar == "" {
+					e.packVar = vs.Names[0].Name // target of PackRecords
+					continue
+				}
 			}
 			return nil, g.bad(st, "unsupported declaration in Encode: %s", g.src(st))
 		}
@@ -1715,6 +1842,41 @@ func (g *wgen) analyseEncode(sname string, fd *ast.FuncDecl) (*wside, error) {
 			}
 			return nil, g.bad(st, "unsupported if statement in Encode: %s", g.src(is.Cond))
 		}
+		if r, ok := st.(*ast.ReturnStmt); ok && len(r.Results) == 1 && g.src(r.Results[0]) == "nil" &&
+			st == fd.Body.List[len(fd.Body.List)-1] {
+			continue // final `return nil`
+		}
+		if as, ok := st.(*ast.AssignStmt); ok && len(as.Lhs) == 2 && len(as.Rhs) == 1 && as.Tok == token.DEFINE {
+			// producers, err := recv.ExtraData.RecordProducers(): the unknown records come first
+			if c, ok := as.Rhs[0].(*ast.CallExpr); ok && callName(c) == "RecordProducers" && len(c.Args) == 0 {
+				sel := c.Fun.(*ast.SelectorExpr)
+				f, ok := recvField(sel.X, e.recv)
+				ft, _ := g.structField(sname, f)
+				id, isId := as.Lhs[0].(*ast.Ident)
+				if !ok || ft == nil || g.src(ft) != "ExtraOpaqueData" || !isId || e.prodVar != "" {
+					return nil, g.bad(st, "unsupported RecordProducers call %s", g.src(c))
+				}
+				e.prodVar, e.side.all, e.side.extFld = id.Name, true, f
+				continue
+			}
+		}
+		if as, ok := st.(*ast.AssignStmt); ok && len(as.Lhs) == 1 && len(as.Rhs) == 1 && as.Tok == token.ASSIGN {
+			// producers = append(producers, helper(recv | &recv.Embedded)...)
+			if c, ok := as.Rhs[0].(*ast.CallExpr); ok && callName(c) == "append" && c.Ellipsis.IsValid() &&
+				len(c.Args) == 2 && g.src(as.Lhs[0]) == e.prodVar && g.src(c.Args[0]) == e.prodVar && e.prodVar != "" {
+				if hc, ok := c.Args[1].(*ast.CallExpr); ok {
+					if fid, ok := hc.Fun.(*ast.Ident); ok {
+						if hf, ok := g.funcs[fid.Name]; ok {
+							if err := e.inlineProducers(st, hc, hf); err != nil {
+								return nil, err
+							}
+							continue
+						}
+					}
+				}
+				return nil, g.bad(st, "unsupported append of producers: %s", g.src(c.Args[1]))
+			}
+		}
 		call := stmtCall(st)
 		if call == nil {
 			return nil, g.bad(st, "unsupported statement in Encode: %s", g.src(st))
@@ -1739,6 +1901,14 @@ func (g *wgen) analyseEncode(sname string, fd *ast.FuncDecl) (*wside, error) {
 			if err := e.producer(st, sel.X, false); err != nil {
 				return nil, err
 			}
+		case name == "PackRecords":
+			sel := call.Fun.(*ast.SelectorExpr)
+			if g.src(sel.X) != e.packVar || e.packVar == "" || len(call.Args) != 1 ||
+				!call.Ellipsis.IsValid() || g.src(call.Args[0]) != e.prodVar || !e.side.all {
+				return nil, g.bad(st, "unsupported PackRecords call")
+			}
+			e.side.tlv, e.side.mode = true, "Merge"
+			e.mergeVar = e.packVar
 		case name == "EncodeMessageExtraData":
 			if len(call.Args) != 2 || !call.Ellipsis.IsValid() || g.src(call.Args[1]) != e.prodVar {
 				return nil, g.bad(st, "unsupported EncodeMessageExtraData call")
@@ -1792,6 +1962,9 @@ func (g *wgen) analyseEncode(sname string, fd *ast.FuncDecl) (*wside, error) {
 		default:
 			return nil, g.bad(st, "unsupported call in Encode: %s", g.src(call.Fun))
 		}
+	}
+	if e.lenVar != "" {
+		return nil, g.bad(fd, "length of %s taken but never written", e.lenFld)
 	}
 	return e.side, nil
 }
@@ -2323,7 +2496,7 @@ func wireCore(repo string) (string, string, error) {
 	b.WriteString("From Coq Require Import List NArith Bool String.\n")
 	b.WriteString("From LV Require Import Wire.Model Wire.MsgModel.\n")
 	b.WriteString("Import ListNotations.\nLocal Open Scope N_scope.\nLocal Open Scope string_scope.\n\n")
-	var plain, tlvs, opts, unsupp, names, meta []string
+	var plain, tlvs, opts, unsupp, names, meta, nosplit []string
 	for _, m := range msgs {
 		names = append(names, fmt.Sprintf("(%s, %d)", coqString(m.sname), m.typ))
 		dec, derr := (*wside)(nil), error(nil)
@@ -2427,9 +2600,17 @@ func wireCore(repo string) (string, string, error) {
 			fmt.Fprintf(&b, "Definition msg_%s : tlvmsg := %s.\n", m.sname, coqMsg(&d2, ""))
 			fmt.Fprintf(&sym, "Example encdec_%s : encmsg_%s = msg_%s. Proof. reflexivity. Qed.\n",
 				m.sname, m.sname, m.sname)
+			// Merge with / without the custom-record split (ExtraData = all unknown records)
+			fmt.Fprintf(&sym, "Example encdec_split_%s : %v = %v. Proof. reflexivity. Qed.\n",
+				m.sname, enc.all, dec.all)
+			modeName := dec.mode
+			if dec.all {
+				nosplit = append(nosplit, strconv.FormatUint(m.typ, 10))
+				modeName = "MergeAll"
+			}
 			b.WriteString("\n")
 			tlvs = append(tlvs, fmt.Sprintf("(%d, msg_%s)", m.typ, m.sname))
-			meta = append(meta, fmt.Sprintf("(* @fields %d tlv %s ext=%s %s *)", m.typ, dec.mode,
+			meta = append(meta, fmt.Sprintf("(* @fields %d tlv %s ext=%s %s *)", m.typ, modeName,
 				dec.extFld, strings.Join(fl, " ")))
 			continue
 		}
@@ -2494,6 +2675,8 @@ func wireCore(repo string) (string, string, error) {
 	wr("unsupported_failures", "list (N * string)", unsuppF)
 	wr("gen_tlvmsgs", "tmsg_table", tlvs)
 	wr("gen_optmsgs", "omsg_table", opts)
+	fmt.Fprintf(&b, "(* Merge messages whose ExtraData field holds ALL unknown records (no custom-record split) *)\n")
+	fmt.Fprintf(&b, "Definition gen_nosplit : list N := [%s].\n\n", strings.Join(nosplit, "; "))
 	wr("msg_type_of", "list (string * N)", names)
 	wr("unsupported_messages", "list (N * string)", unsupp)
 	b.WriteString(strings.Join(meta, "\n") + "\n")
